@@ -267,3 +267,9 @@ Proof.
   unfold spec_C05x. rewrite fw_clause_model_lemma, andb_true_r.
   apply EngineSpecProofs.spec_C05_model_lemma.
 Qed.
+
+Lemma spec_C04x_model_lemma sc : spec_C04x sc (eobs_of_model (model_obs sc)) = true.
+Proof.
+  unfold spec_C04x. rewrite fw_clause_model_lemma, andb_true_r.
+  apply EngineSpecProofs.spec_C04_model_lemma.
+Qed.
